@@ -130,7 +130,7 @@ where
     S: Into<Arc<Source<T>>>,
 {
     #[cfg(callbag_verif)]
-    use crate::verif_hooks::{AtomicBool, AtomicUsize};
+    use crate::verif_hooks::{ArcSwapOption, AtomicBool, AtomicUsize};
     #[cfg(feature = "tracing")]
     let take_fn_span = Span::current();
     Box::new(move |source| {
